@@ -224,10 +224,18 @@ def _store(mod, path):
     with open(path, "wb") as f:
         pickle.dump(mod, f)
     if not _store_checked["ok"]:
-        from nsl import LinearIR
+        from nsl import Compiler, LinearIR
 
+        # the probe is a trivial module of its own, so that a loader that chokes on a particular
+        # *program* is reported as what it is (a violation), not as a format change
+        probe = path + ".format-probe"
         try:
-            LinearIR.FilesystemModuleLoader().Load(path)
+            with core.Quiet():
+                pm = Compiler.Compiler().Compile("export function probe__(int a) -> int { return a; }")
+            with open(probe, "wb") as f:
+                pickle.dump(pm.IRModule, f)
+            LinearIR.FilesystemModuleLoader().Load(probe)
+            os.unlink(probe)
         except Exception as e:
             raise core.HarnessError(
                 f"a module stored by the harness with pickle.dump is not loadable by the product's loader "
